@@ -333,6 +333,7 @@ inductive PlanErr where
   | emptyQueue  -- no run fits: `queue.Top()` on an empty queue / assert(per_buffer)
   | offsets     -- the Offsets log cannot be read back
   | badConfig   -- `BadSortConfig` thrown by the constructor
+  | fuel        -- model only: recursion fuel exhausted (proved unreachable for legal configurations)
   deriving Repr, DecidableEq
 
 /-- The `while (in_offsets_->RemainingBlocks())` loop of `MergingReader::Run`
@@ -341,7 +342,7 @@ inductive PlanErr where
 def codeGroups {α : Type} (entrySize bufferSize totalMem : Nat) (assertOne : Bool) :
     Nat → List (List α) → Except PlanErr (List (List (List α)))
   | _, [] => .ok []
-  | 0, _ :: _ => .ok []
+  | 0, _ :: _ => .error .fuel
   | fuel + 1, runs@(_ :: _) =>
     let pb := perBuffer entrySize bufferSize totalMem runs.length
     if pb = 0 then .error .emptyQueue else
@@ -376,17 +377,19 @@ def dataSize {α : Type} (cfg : Cfg) (runs : List (List α)) : Nat :=
 (sort.hh:436-458).  Returns the runs and the number of passes made. -/
 def codeMergeLoop {α : Type} (lt : α → α → Bool) (comb : α → α → Option α) (pick : List (QEntry α) → Nat)
     (cfg : Cfg) (lazyMem : Nat) : Nat → List (List α) → Nat → Except PlanErr (List (List α) × Nat)
-  | 0, runs, n => .ok (runs, n)
-  | fuel + 1, runs, n =>
+  | fuel, runs, n =>
     let lazyArity := max 1 (lazyMem / cfg.bufferSize)
     let size := dataSize cfg runs
     if runs.length ≤ lazyArity ∨ size ≤ lazyMem then .ok (runs, n)
     else
-      let reading0 := cfg.totalMemory - 2 * cfg.bufferSize
-      let reading := if size < reading0 then size else reading0
-      match codePass lt comb pick cfg reading runs with
-      | .error e => .error e
-      | .ok runs' => codeMergeLoop lt comb pick cfg lazyMem fuel runs' (n + 1)
+      match fuel with
+      | 0 => .error .fuel
+      | fuel + 1 =>
+        let reading0 := cfg.totalMemory - 2 * cfg.bufferSize
+        let reading := if size < reading0 then size else reading0
+        match codePass lt comb pick cfg reading runs with
+        | .error e => .error e
+        | .ok runs' => codeMergeLoop lt comb pick cfg lazyMem fuel runs' (n + 1)
 
 /-- Result of `Sort::Merge(lazy_memory)`. -/
 structure MergeResult (α : Type) where
@@ -403,8 +406,7 @@ def codeMerge {α : Type} (lt : α → α → Bool) (comb : α → α → Option
     match codeMergeLoop lt comb pick cfg lazyMem runs.length runs 0 with
     | .error e => .error e
     | .ok (runs', n) =>
-      if n = 0 then .ok ⟨runs', 0, min (dataSize cfg runs') (runs'.length * cfg.bufferSize)⟩
-      else if runs'.length ≤ 1 then .ok ⟨runs', n, 0⟩
+      if runs'.length ≤ 1 then .ok ⟨runs', n, 0⟩
       else .ok ⟨runs', n, min (dataSize cfg runs') (runs'.length * cfg.bufferSize)⟩
 
 /-- `OwningMergingReader::Run`: `MergingReader::Run(position, true)` with
